@@ -797,6 +797,16 @@ def correspond(ctx, sc, d, got, case):
 
 # ---------------------------------------------------------------------------------------------
 
+def set_order_blind(text):
+    """the two wordings that list the members of a SET (the extra properties) print them in the set's
+    iteration order, which depends on the process's string-hash seed: another interpreter process may
+    list them in another order. Compared up to the order of the quoted names inside those lists."""
+    def canon(m):
+        return m.group(1) + ", ".join(sorted(x.strip() for x in m.group(2).split(", "))) + m.group(3)
+    text = re.sub(r"(Additional properties are not allowed \()(.*?)( (?:was|were) unexpected\))", canon, text)
+    return text
+
+
 def khash(v):
     try:
         return hash(codec.canon(v))
@@ -857,7 +867,7 @@ def campaign(ctx):
                     if code != got["status"]:
                         res.fail("cli:subprocess", "python -m jsonschema exits with %r, run() gave %r" % (code, got["status"]), case)
                     elif not got["usage"] and got["end"][0] == "exit" and (sout != got["out"] or HEADER.findall(serr) != HEADER.findall(got["err"])
-                                                                          or (sc.mode == "plain" and serr != got["err"])):
+                                                                          or (sc.mode == "plain" and set_order_blind(serr) != set_order_blind(got["err"]))):
                         res.fail("cli:subprocess", "python -m jsonschema writes something else than run()", case,
                                  sub=[sout[:300], serr[:300]], inproc=[got["out"][:300], got["err"][:300]])
             finally:
